@@ -50,6 +50,7 @@ uint64_t now_ns();
 uint64_t steps();
 uint64_t switches();
 void advance_ns(uint64_t ns);    // injected clock jump
+uint64_t perturbed_ns();         // sim time added so far by injected stalls and by waking spinners (excluded from lateness verdicts)
 
 // ---- randomness (workload stream, independent of the scheduling stream) ------
 uint64_t rnd();
